@@ -100,7 +100,7 @@ def Hi(*parts) -> int:
 
 def _gen_array(rng):
     h = rng.choice([1, 1, 2, 2, 3, 3, 4])
-    w = rng.choice([1, 2, 2, 3, 3, 4])
+    w = rng.choice([1, 2, 2, 3, 3, 4, 5, 6])
     choice, default = rng.choice(
         [
             ([-1, 0, 1, 2], -1),
@@ -292,7 +292,7 @@ def _gen_prng_real(rng):
         sc["a"] = a
         sc["b"] = a + w - 1
     if t == "real_shuffle":
-        sc["n"] = rng.randint(0, 12)
+        sc["n"] = rng.randint(0, 12) if rng.random() < 0.8 else rng.choice([255, 256, 257, 1000, 5000])
     return sc
 
 
@@ -683,13 +683,14 @@ def _prng_real_shuffle(sc, res, dr, srandom):
 def _prng_xorshift(sc, res, dr):
     s = sc["s"]
     with _RngSeam(None):
+        n_draws = 40 if s % 8 else 3000  # every eighth scenario follows the stream for a long time
         dr.seed(s)
-        one = [dr._rng.next() for _ in range(40)]
+        one = [dr._rng.next() for _ in range(n_draws)]
         dr.seed(s)
-        two = [dr._rng.next() for _ in range(40)]
+        two = [dr._rng.next() for _ in range(n_draws)]
         dr.seed(s + 1)
-        three = [dr._rng.next() for _ in range(40)]
-        res.steps += 120
+        three = [dr._rng.next() for _ in range(n_draws)]
+        res.steps += 3 * n_draws
         res.log("xorshift", one[:4])
         if one != two:
             res.violate("C19/reseed-not-reproducible", f"seed({s}) twice gave different streams: {one[:3]} vs {two[:3]}")
@@ -697,13 +698,13 @@ def _prng_xorshift(sc, res, dr):
             res.violate("C19/random-out-of-range", f"raw output outside [0, 2^32): {[x for x in one if not (type(x) is int and 0 <= x < 2**32)][:3]}")
         elif one == three:
             res.violate("C19/reseed-not-reproducible", f"seeds {s} and {s + 1} give the same stream")
-        elif len(set(one)) < 30:
+        elif len(set(one)) < len(one) * 3 // 4:
             res.violate("C19/random-not-uniform", f"raw stream after seed({s}) repeats: {one[:8]}")
         # seeding through srandom is the same thing
         import cspuz.generator.srandom as srandom
 
         srandom.use_deterministic_prng(True, s)
-        four = [dr._rng.next() for _ in range(40)]
+        four = [dr._rng.next() for _ in range(n_draws)]
         if four != one:
             res.violate("C19/reseed-not-reproducible", f"use_deterministic_prng(True, {s}) does not reproduce seed({s})")
         r = [srandom.random() for _ in range(20)]
